@@ -108,6 +108,36 @@ fn main() {
             let len = if thorough { 5 } else { 3 };
             let mut rng = Rng::new(seed ^ 0x7A ^ if EXTRAS { 0xE000 } else { 0 });
             let mut ninputs = 0u64; let mut nontrivial = 0u64;
+            // long tokens: a PUSHed delimiter / a grammar literal of a few dozen bytes with a multi-byte character lying across
+            // a "round" byte offset (16, 32, 48, 64) — whatever is done with the text of a token must respect character boundaries
+            {
+                use pest_meta::ast::{Expr, Rule, RuleType};
+                let bx = |e: Expr| Box::new(e);
+                let id = |n: &str| Expr::Ident(n.to_string());
+                let line = |e: Expr| Expr::Rep(bx(Expr::Seq(bx(Expr::NegPred(bx(Expr::Str("\n".into())))), bx(e))));
+                let mut delims: Vec<String> = vec![];
+                for t in [16usize, 32, 48, 64] { for ch in ["é", "嗨", "😀"] { for off in (t + 1 - ch.len())..t {
+                    let mut d = "E".repeat(off); d.push_str(ch); while d.len() < t + 13 { d.push('E'); } delims.push(d); } } }
+                let cfgd = match profile.as_str() { "C15" => "m1,d1,l_", _ => "m1,d0,l_" };
+                let heredoc = vec![
+                    Rule { name: "doc".into(), ty: RuleType::Normal, expr: { let sq = |a: Expr, b: Expr| Expr::Seq(Box::new(a), Box::new(b)); sq(Expr::Push(bx(id("delim"))), sq(Expr::Str("\n".into()), sq(id("body"), sq(Expr::Str("\n".into()), sq(id("POP"), id("EOI")))))) } },
+                    Rule { name: "delim".into(), ty: RuleType::Atomic, expr: Expr::Seq(bx(id("ANY")), bx(line(id("ANY")))) },
+                    Rule { name: "body".into(), ty: RuleType::Atomic, expr: line(id("ANY")) }];
+                if let Ok(orules) = catch(|| pest_meta::optimizer::optimize(heredoc.clone())) {
+                    let mut inputs = vec![];
+                    for d in &delims { inputs.push(format!("{}\nsome body\n{}", d, d)); let mut bad = d.clone(); bad.pop(); bad.push('F'); inputs.push(format!("{}\nsome body\n{}", d, bad)); }
+                    for chunk in inputs.chunks(12) {
+                        let l = format!("V {} vm {} doc {}", cfgd, show_orules(&orules), chunk.iter().map(|x| hexs(x)).collect::<Vec<_>>().join(" "));
+                        let (i, v) = eval_line(&l, &mut stats); ninputs += chunk.len() as u64; nontrivial += chunk.len() as u64; out.push(l, i, v); } }
+                for (k, d) in delims.iter().enumerate().filter(|(k, _)| k % 3 == (seed % 3) as usize) {
+                    let lit = if k % 2 == 0 { Expr::Str(d.clone()) } else { Expr::Insens(d.to_uppercase().to_lowercase()) };
+                    let g = vec![Rule { name: "r".into(), ty: RuleType::Normal, expr: Expr::Seq(bx(Expr::Opt(bx(Expr::Str("x".into())))), bx(Expr::Seq(bx(lit), bx(id("EOI"))))) }];
+                    if let Ok(orules) = catch(|| pest_meta::optimizer::optimize(g.clone())) {
+                        let mut bad = d.clone(); bad.pop(); bad.push('F');
+                        let ins = [d.clone(), format!("x{}", d), bad, d[..d.len() - 1].to_string(), format!("{}E", d)];
+                        let l = format!("V {} vm {} r {}", cfgd, show_orules(&orules), ins.iter().map(|x| hexs(x)).collect::<Vec<_>>().join(" "));
+                        let (i, v) = eval_line(&l, &mut stats); ninputs += ins.len() as u64; nontrivial += ins.len() as u64; out.push(l, i, v); } }
+            }
             for gi in 0..ngram {
                 let cfg = GenCfg { extras: EXTRAS, guarded: true, stack_ops: gi % 3 == 0, tags: false, max_rules: 5, max_depth: 4, builtin_names: true, tag_shapes: TAG_SHAPES };
                 // the first grammars of every run are centred on the idioms; half of them on the one that matters most for the profile
